@@ -568,8 +568,53 @@ def compare_states(prev, nxt, form):
 # --------------------------------------------------------------------------------------
 # finding classes (computed from the case and the clause, never from the outcome)
 # --------------------------------------------------------------------------------------
+def case_features(c):
+    """Features recomputed from the case itself (generated, corpus and replayed cases alike)."""
+    prog = c["program"]
+    root, pool = prog["root"], prog["pool"]
+    feats = set()
+    used = refs_in(root)
+    if len(used) != len(set(used)):
+        feats.add("shared")
+    for kind in ("arith", "tuple", "const"):
+        if has_kind(root, kind):
+            feats.add(kind)
+    if len(levels(root)) > 1:
+        feats.add("nested")
+    for r in set(used):
+        sp = pool[r]
+        if "derive" in sp:
+            feats.add(sp["derive"])
+            if sp["of"] in used:
+                feats.add("copy-with-original")
+        feats.add("fam:" + (sp.get("family") or pool[sp["of"]]["family"]))
+    if c.get("passed"):
+        feats.add("passed")
+    for a in c.get("asserts", []):
+        feats.add("assert")
+        if a["a"]["k"] == "chain":
+            feats.add("assert-chain")
+    lv = levels(root)
+    dict_levels = [list(l) for l, _, _ in c.get("dicts", [])]
+    for p, n in lv:
+        if n["t"] == "model" and p and not refs_in(n):
+            feats.add("zeroprior")
+            if has_kind(n, "tuple"):
+                feats.add("zeroprior-tuple")
+            if n.get("extra") or list(p) in dict_levels:
+                feats.add("zeroprior-extra")
+            parent = [m for q, m in lv if q == p[:-1]][0]
+            if parent["t"] == "model":
+                feats.add("zeroprior-in-model")
+    for l, name, items in c.get("dicts", []):
+        feats.add("dict")
+        if any(unhex(v) == 0.0 for _, v in items):
+            feats.add("dict-falsy")
+    return feats
+
+
 def classes_for(c, step_index, clause):
-    feats = set(c["program"]["features"])
+    feats = case_features(c)
     forms = [s["form"] for s in c["steps"][:step_index + 1]]
     form = forms[-1]
     out = []
@@ -712,7 +757,11 @@ def has_other_inst(i):
     return False
 
 
-def coq_case(c, r):
+def coq_cfg(cfg):
+    return "(mkcfg %s %s %s %s)" % tuple(common.cbool(cfg[k]) for k in ("fix_db_id", "fix_loggaussian", "fix_chain", "fix_falsy"))
+
+
+def coq_case(c, r, cfg):
     states, steps = r["states"], r["steps"]
     for o in states:
         if not printable(o["state"]):
@@ -732,13 +781,17 @@ def coq_case(c, r):
             if o is None:
                 return None
             items.append("(StepOk %s %s)" % (form, o))
-    return "{| c_init := %s; c_steps := %s |}" % (first, clist(items))
+    return "{| c_cfg := %s; c_init := %s; c_steps := %s |}" % (coq_cfg(cfg), first, clist(items))
 
 
 # --------------------------------------------------------------------------------------
 # array / modified-prior stream (oracle only)
 # --------------------------------------------------------------------------------------
 def gen_array_case(rng):
+    if rng.random() < 0.25:
+        form = rng.choice(["dict", "pickle", "db"])
+        return {"kind": "modified", "prior": {"family": "uniform", "lo": (0.0).hex(), "hi": (2.0).hex()},
+                "steps": [{"form": form, "variant": {"dict": "dict", "pickle": "pickle", "db": "fit"}[form]}]}
     fam = rng.choice(["uniform", "gaussian"])
     spec = ({"family": "uniform", "lo": (0.0).hex(), "hi": (2.0).hex()} if fam == "uniform" else
             {"family": "gaussian", "mean": (0.5).hex(), "sigma": (0.25).hex(), "lo": (-1.0).hex(), "hi": (2.0).hex()})
@@ -785,6 +838,13 @@ def run(ctx):
         rp = json.load(open(ctx.replay))
         if rp.get("case"):
             cases = [rp["case"]]
+    # which of the modelled repairs does this tree contain (the theorems hold for every configuration)
+    pr = common.run_impl("c08_impl", {"cases": [{"kind": "probe"}]}, timeout=300)
+    cfg = (pr.get("results") or [{}])[0].get("ok")
+    ctx.obligation("translator:cfg-probe", "translator", isinstance(cfg, dict) and len(cfg) == 4, json.dumps(pr)[-300:])
+    if not isinstance(cfg, dict):
+        return
+    ctx.notes["code_configuration"] = cfg
     chunks = [ch for ch in (cases[i::common.NCPU] for i in range(common.NCPU)) if ch]
     outs = common.run_impl_parallel("c08_impl", [{"cases": ch} for ch in chunks], timeout=1500)
     results = [None] * len(cases)
@@ -796,11 +856,11 @@ def run(ctx):
             results[ci + j * common.NCPU] = r
     coq_cases, coq_idx = [], []
     for i, (c, r) in enumerate(zip(cases, results)):
-        if c.get("kind") == "array":
+        if c.get("kind") in ("array", "modified"):
             run_array_oracle(ctx, c, r)
             continue
         prog = c["program"]
-        feats = set(prog["features"])
+        feats = case_features(c)
         nontrivial = len(set(refs_in(prog["root"]))) >= 2 and bool(
             feats & {"shared", "nested", "tuple", "arith", "const", "new", "with_limits", "passed", "assert", "zeroprior"})
         for f in feats:
@@ -839,14 +899,14 @@ def run(ctx):
                 oracle_failed = True
                 ctx.failure("oracle", "%s round trip (step %d): %s" % (form, k + 1, msg), sub,
                             classes=classes_for(c, k, clause), impl={"before": r["states"][k]["state"], "after": r["states"][k + 1]["state"]})
-        cc = coq_case(c, r)
+        cc = coq_case(c, r, cfg)
         if cc is None:
             ctx.hist("correspondence", "not-printable")
         else:
             coq_cases.append(cc)
             coq_idx.append((i, oracle_failed))
         if i % 30 == 0:
-            ctx.sample({"features": prog["features"], "n_priors": len(prog["pool"]), "trips": [s["form"] for s in c["steps"]],
+            ctx.sample({"features": sorted(feats), "n_priors": len(prog["pool"]), "trips": [s["form"] for s in c["steps"]],
                         "outcomes": ["ok" if "ok" in s else s["exc"] for s in r["steps"]], "paths": r["states"][0]["paths"][:5]})
     if os.path.exists(os.path.join(common.COQ, "C08", "Model.vo")):
         hdr = ctx.header(["Common.PyFloat", "Model"]).replace(
@@ -862,20 +922,27 @@ def run(ctx):
 
 def run_array_oracle(ctx, c, r):
     form = c["steps"][0]["form"]
-    ctx.count_case(c, True, kind="array:" + form)
+    ctx.count_case(c, True, kind=c["kind"] + ":" + form)
     ctx.oracle["cases"] += 1
     if "exc" in r:
         ctx.failure("oracle", "array driver raised %s" % r.get("msg", "")[-300:], c)
         return
     r = r["ok"]
     classes = []
-    if form == "db":
-        classes.append("db-message-id")
-    if form == "dict":
-        classes.append("dict-array")
+    if c["kind"] == "modified":
+        if form in ("dict", "db"):
+            classes.append("modified-prior")
+    else:
+        if form == "db":
+            classes.append("db-message-id")
+        if form == "dict":
+            classes.append("dict-array")
     if "exc" in r["steps"][0]:
         ctx.oracle["failures"] += 1
-        ctx.failure("oracle", "array model: %s round trip raised %s" % (form, r["steps"][0]["exc"]), c, classes=classes, impl=r)
+        ctx.failure("oracle", "%s model: %s round trip raised %s" % (c["kind"], form, r["steps"][0]["exc"]), c, classes=classes, impl=r)
+    elif "inst" in r and ("ok" not in r["inst"][1] or not C01.same_inst(r["inst"][0]["ok"], r["inst"][1]["ok"])):
+        ctx.oracle["failures"] += 1
+        ctx.failure("oracle", "%s model: instance differs after %s round trip" % (c["kind"], form), c, classes=classes, impl=r)
     elif r["count"][0] != r["count"][1] or r["paths"][0] != r["paths"][1]:
         ctx.oracle["failures"] += 1
         ctx.failure("oracle", "array model: prior_count %s -> %s, paths %s -> %s" % (r["count"][0], r["count"][1], r["paths"][0][:4], r["paths"][1][:4]),
